@@ -331,7 +331,12 @@ class Gen:
             return text, False
         if k < 0.93:
             self.features.add('cte')
-            shape = r.choice(['plain', 'plain', 'body-union', 'main-union', 'used-twice', 'joined', 'two-ctes', 'in-subquery'])
+            shapes = ['plain', 'plain', 'body-union', 'main-union', 'used-twice', 'joined', 'two-ctes', 'in-subquery']
+            if self.qual('t1') == 't1':
+                # a WITH clause of a nested query (derived table, IN / EXISTS operand, body of another CTE); its name may be the name of
+                # a table that the enclosing query reads: it is local to the nested query
+                shapes += ['nested-derived', 'nested-in', 'nested-exists', 'nested-cte-body']
+            shape = r.choice(shapes)
             self.features.add('cte:' + shape)
             if shape == 'plain':
                 inner, _ = self.simple_select(with_order=False, allow_limit=False, subq=False)
@@ -340,6 +345,20 @@ class Gen:
             a = f'SELECT p.id AS id, p.a AS a FROM {self.qual(t1)} AS p' + r.choice(['', ' WHERE p.a > 0', ' WHERE p.id < 4'])
             b = f'SELECT q.id AS id, q.a AS a FROM {self.qual(t2)} AS q' + r.choice(['', ' WHERE q.a IS NOT NULL'])
             op = r.choice(['UNION', 'UNION ALL', 'EXCEPT', 'INTERSECT'])
+            if shape.startswith('nested-'):
+                other = 't2' if t1 == 't1' else 't1'
+                n = r.choice([other, other, 'cte9'])
+                if n != 'cte9':
+                    self.features.add('cte:nested-name-shadows-outer-table')
+                bq = f'SELECT q.id AS id, q.a AS a FROM {other} AS q'
+                inner = f'WITH {n} AS ({a}) SELECT c.id AS id, c.a AS a FROM {n} AS c'
+                if shape == 'nested-derived':
+                    return f'SELECT s.id AS id, q.a AS a FROM ({inner}) AS s {r.choice(["JOIN", "LEFT JOIN"])} {other} AS q ON q.id = s.id', False
+                if shape == 'nested-in':
+                    return f'{bq} WHERE q.id {r.choice(["IN", "NOT IN"])} (WITH {n} AS ({a}) SELECT c.id FROM {n} AS c WHERE c.id IS NOT NULL)', False
+                if shape == 'nested-exists':
+                    return f'{bq} WHERE {r.choice(["", "NOT "])}EXISTS (WITH {n} AS ({a}) SELECT c.id FROM {n} AS c WHERE c.id = q.id)', False
+                return f'WITH big AS ({inner}) SELECT d.id AS id, q.a AS a FROM big AS d JOIN {other} AS q ON q.id = d.id', False
             if shape == 'body-union':
                 return f'WITH cte1 AS ({a} {op} {b}) SELECT c.id AS id, c.a AS a FROM cte1 AS c WHERE c.id > 1', False
             if shape == 'main-union':
